@@ -7,6 +7,7 @@ From Coq Require Import List Arith Bool Permutation.
 Require Import TT.Model.Base TT.Model.Topo TT.Model.C13Order TT.Spec.C13Rel.
 Require Import TT.Model.Str TT.Spec.C13Spec.
 Require Import TT.Proofs.C13SortInv TT.Proofs.C13Proofs TT.Proofs.C13Extra TT.Proofs.C13Trans TT.Proofs.C13Oracle.
+Require Import TT.Spec.TsLex TT.Spec.TsModule TT.Spec.TsObs TT.Model.C13Text TT.Proofs.C13Rank TT.Proofs.C13TextProofs.
 Import ListNotations.
 
 (* Whatever the hash orders, the generated declarations are the same lists (was refuted before the
@@ -55,9 +56,63 @@ Proof. exact rel_exact. Qed.
    file holding only such items changes at most the order. *)
 Theorem C13_noise : forall p p' zod w, denoise p = denoise p' -> gen zod w p = gen zod w p'.
 Proof. exact noise_equiv. Qed.
-Theorem C13_noise_file : forall f p zod w w', noise_file f = true -> kf_dupdef p = false -> kf_dupevent p = false ->
-  out_perm (gen zod w p) (gen zod w' (f :: p)).
-Proof. exact noise_file_thm. Qed.
+(* Round 7: equality, without premises, for the output and for both graph files (was: same multiset
+   under the two class premises). Ranks in the sorted path list are monotone in the path. *)
+Theorem C13_noise_file : forall f p zod w w', noise_file f = true ->
+  gen zod w p = gen zod w' (f :: p) /\ viz w p = viz w' (f :: p).
+Proof. intros f p zod w w' H. split; [apply noise_file_eq|apply noise_file_viz_eq]; exact H. Qed.
+(* any number of noise-only files at any position: two projects with the same other files, in the same
+   relative order, have equal outputs *)
+Theorem C13_noise_files : forall p p' zod w w', strip_noise_files p = strip_noise_files p' -> gen zod w p = gen zod w' p'.
+Proof. exact noise_files_equiv. Qed.
+
+(* Round 7: what the sorted orders are. The file loop of the repaired pipeline is the stable sort of the
+   files by path, whatever hash order arrived; plain types.ts is the used types by name followed by the
+   Params declarations of the commands in path order; commands.ts is the wrappers in path order. *)
+Theorem C13_canonical_order : forall w p,
+  files_in_order (repaired w p) p = files_sorted p /\
+  option_map o_types (gen false w p) =
+    match commands_sorted p with
+    | [] => None
+    | _ => Some (type_decls_plain (index_sorted p) (sort_names (used (index_sorted p) p)) ++
+                 flat_map param_decl (commands_sorted p))
+    end /\
+  forall zod, option_map o_commands (gen zod w p) =
+    match commands_sorted p with
+    | [] => None
+    | cs => Some ((if zod then [DHooks] else []) ++ map (fun c => DWrapper (c_name c)) cs)
+    end.
+Proof. intros w p. split; [apply files_repaired|]. split; [apply types_plain_closed_form|]. intros zod. apply commands_closed_form. Qed.
+
+(* Round 7, text level (Model/C13Text.v): the ids of the skeleton resolved by a content table k to the items
+   as written, the files rendered by the text-level generator models (Pipeline.v tokens in plain mode,
+   PipelineZod.v and Events.v text). The file TEXT is the same for all hash orders ... *)
+Theorem C13_text_order_independent : forall k p zod w w', text_files k zod w p = text_files k zod w' p.
+Proof. exact text_order_independent. Qed.
+Theorem C13_viz_text_independent : forall k p w w', viz_text_of k w p = viz_text_of k w' p.
+Proof. exact viz_text_independent. Qed.
+(* ... unchanged by noise items and noise-only files ... *)
+Theorem C13_text_noise : forall k p p' zod w, denoise p = denoise p' -> text_files k zod w p = text_files k zod w p'.
+Proof. exact text_noise. Qed.
+Theorem C13_text_noise_file : forall k f p zod w w', noise_file f = true ->
+  text_files k zod w p = text_files k zod w' (f :: p) /\ viz_text_of k w p = viz_text_of k w' (f :: p).
+Proof. exact text_noise_file. Qed.
+(* ... and plain types.ts is its import line followed by one block of tokens per declaration; source
+   transformations permute the blocks of types.ts and commands.ts and change no block. *)
+Theorem C13_types_plain_blocks : forall k o,
+  x_types_plain (render_out k false o) = chan_import (o_cmds k o) ++ concat (types_blocks k o).
+Proof. exact types_plain_blocks. Qed.
+Theorem C13_text_transformations : forall k p p', tsteps p p' -> kf_dupdef p = false -> kf_dupevent p = false ->
+  forall zod w w', text_perm k (gen zod w p) (gen zod w' p').
+Proof. exact text_transformations. Qed.
+
+(* Round 7: the canonical printer of the oracle is injective (a prefix code; the round-6 printer was not), so
+   the verdict same-items means that the two versions parse to item lists with equal s-expressions. *)
+Theorem C13_oracle_printer_injective : forall s s', sx_show s = sx_show s' -> s = s'.
+Proof. exact sx_show_inj. Qed.
+Theorem C13_oracle_same_items : forall a b, rel a b = SameItems <->
+  exists ma mb, parse_module a = Some ma /\ parse_module b = Some mb /\ map sx_item ma = map sx_item mb.
+Proof. exact rel_same_items_sx. Qed.
 
 (* The two classes are not vacuous: exchanging two same-named definitions between two files changes
    the emitted body (the last path in sorted order wins) ... *)
@@ -118,6 +173,39 @@ Proof. split; cbn.
     apply perm_trans with (l' := [mk_cmd 2 []; mk_cmd 1 [1]; mk_type 1 [] 0]); [apply perm_swap|].
     apply perm_skip. apply perm_swap. Qed.
 
+(* ---- round 7 examples ---- *)
+From Coq Require Import String.
+Local Open Scope string_scope.
+Local Open Scope list_scope.
+Example C13_ex_noise_files : strip_noise_files ((4, [INoise; IFn []]) :: ex_p) = strip_noise_files (ex_p ++ [(0, [INoise])])
+  /\ strip_noise_files ex_p = ex_p.
+Proof. vm_compute. auto. Qed.
+Example C13_ex_canonical : files_sorted [(3, [INoise]); (1, [mk_cmd 1 []]); (2, [IFn []]); (1, [mk_cmd 2 []])]
+  = [(1, [mk_cmd 1 []]); (1, [mk_cmd 2 []]); (2, [IFn []]); (3, [INoise])] /\ map c_name (commands_sorted ex_p) = [1; 2].
+Proof. vm_compute. auto. Qed.
+Definition ex_struct (b : nat) : Pipeline.struct_def :=
+  if Nat.eqb b 1 then Pipeline.user
+  else {| Pipeline.s_name := L "T" ++ [Ascii.ascii_of_nat (48 + b)]; Pipeline.s_serde := [];
+          Pipeline.s_fields := [ {| Pipeline.f_name := L "inner"; Pipeline.f_ty := Pipeline.T1 "Vec" (Pipeline.T0 "User"); Pipeline.f_serde := [] |} ] |}.
+Definition ex_fn : Pipeline.fn_def := {| Pipeline.fn_name := L "nothing"; Pipeline.fn_attrs := Pipeline.tc; Pipeline.fn_async := false; Pipeline.fn_params := []; Pipeline.fn_ret := None |}.
+Definition ex_k : content :=
+  {| k_struct := ex_struct; k_cmd := fun c => nth (c - 1) Pipeline.fns ex_fn; k_event := fun _ => L "tick";
+     k_pay := fun _ => L "User"; k_type := fun n => L "T" ++ [Ascii.ascii_of_nat (48 + n)] |}.
+Example C13_ex_text :
+  match text_files ex_k false ex_w ex_p with
+  | Some t => Nat.ltb 100 (List.length (x_types_plain t)) && Nat.ltb 40 (List.length (x_commands_plain t)) &&
+              match x_events t with Some e => Nat.ltb 100 (List.length e) | None => false end
+  | None => false end = true
+  /\ match text_files ex_k true ex_w ex_p with
+     | Some t => Nat.ltb 200 (List.length (x_types_zod t)) && Nat.ltb 200 (List.length (x_commands_zod t))
+     | None => false end = true
+  /\ match gen false ex_w ex_p with Some o => List.length (types_blocks ex_k o) | None => 0 end = 7.
+Proof. vm_compute. auto. Qed.
+Example C13_ex_viz_text : vt_edges (viz_text_of ex_k ex_w ex_p) <> [] /\ vt_chains (viz_text_of ex_k ex_w ex_p) <> [].
+Proof. vm_compute. split; intros H; discriminate H. Qed.
+Example C13_ex_printer : sx_show (SL [SA (L "a"); SA (L "b")]) <> sx_show (SL [SA (L "a> <b")]).
+Proof. vm_compute. intros H; discriminate H. Qed.
+
 Print Assumptions C13_order_independent.
 Print Assumptions C13_viz_independent.
 Print Assumptions C13_flags.
@@ -127,5 +215,15 @@ Print Assumptions C13_transformations.
 Print Assumptions C13_oracle_exact.
 Print Assumptions C13_noise.
 Print Assumptions C13_noise_file.
+Print Assumptions C13_noise_files.
+Print Assumptions C13_canonical_order.
+Print Assumptions C13_text_order_independent.
+Print Assumptions C13_viz_text_independent.
+Print Assumptions C13_text_noise.
+Print Assumptions C13_text_noise_file.
+Print Assumptions C13_types_plain_blocks.
+Print Assumptions C13_text_transformations.
+Print Assumptions C13_oracle_printer_injective.
+Print Assumptions C13_oracle_same_items.
 Print Assumptions C13_move_dupdef_refuted.
 Print Assumptions C13_move_dupevent_refuted.
